@@ -299,7 +299,7 @@ func newLinkOpt(suite uint16, keylog io.Writer, randSeed uint64) (*link, error) 
 	a := &rawConn{l: l, in: newQueue(), out: newQueue()}
 	b := &rawConn{l: l, in: newQueue(), out: newQueue()}
 	a.peer, b.peer = b, a
-	dl := time.Now().Add(ioTimeout)
+	dl := time.Now().Add(hx.D(ioTimeout)) // 10x when the case is re-run alone
 	a.SetDeadline(dl)
 	b.SetDeadline(dl)
 	cliCfg := &gmtls.Config{GMSupport: &gmtls.GMSupport{}, RootCAs: rootPool, ServerName: "localhost", CipherSuites: []uint16{suite}}
@@ -337,7 +337,7 @@ func newLinkOpt(suite uint16, keylog io.Writer, randSeed uint64) (*link, error) 
 			return nil, fmt.Errorf("c07: negotiated suite %#x version %#x", st.CipherSuite, st.Version)
 		}
 	}
-	dl = time.Now().Add(ioTimeout)
+	dl = time.Now().Add(hx.D(ioTimeout))
 	a.SetDeadline(dl)
 	b.SetDeadline(dl)
 	return l, nil
@@ -824,6 +824,12 @@ func runCase(line string) string {
 	res, _ := hx.Guard(deadline, func() string { return doCase(ctx, f) })
 	ctx.closeAll() // also unblocks whatever is still running after a HANG
 	return f[1] + " " + res
+}
+
+// timedOut: HANG (hx.Guard) or a set-up step (handshake, preamble) that did not get through - both are re-run
+// alone with 10x deadlines before they are reported
+func timedOut(obs string) bool {
+	return hx.TimedOut(obs) || strings.HasSuffix(obs, " err handshake") || strings.HasSuffix(obs, " err pre")
 }
 
 func runAll(lines []string) []string {
@@ -1366,6 +1372,7 @@ func main() {
 			o.Case(l)
 			o.Obs(cobs[i])
 		}
+		o.RetryIf(timedOut, runCase)
 		o.Close()
 		return
 	}
@@ -1374,6 +1381,7 @@ func main() {
 		for _, l := range runAll(hx.ReadLines(os.Args[2])) {
 			o.Obs(l)
 		}
+		o.RetryIf(timedOut, runCase)
 		o.Close()
 		return
 	}
